@@ -85,6 +85,69 @@ CHECKS = {
         "note": "Float results compared at 1e-9 relative plus the unavoidable double rounding (amplified for annualised figures, compared in log "
         "space); ill-conditioned figures (admissible error > 1e-3) are not compared. Sampled series.",
     },
+    "C16": {
+        "technique": "offline checker over a per-bar event log (cash, positions, action records) of real Actuator runs against the settlement rule in Decimal",
+        "text": "Generated hourly option books (calls and puts ITM / ATM / OTM / barely covering the fee, several positions with different "
+        "expiries on the hour, between hours, before the first and after the last bar, instruments missing from the expiry-hour book, missing "
+        "hours) are run through the real Actuator alone (1 h, 4 h) and next to a 1-min / 5-min co-market, with buy/sell attempted on every bar; "
+        "the log is checked for: removal exactly once at the first open bar at or after expiry (never before), one Expired record, payoff = "
+        "contracts x |S-K| / S minus min(0.015% x contracts, 12.5% x option value) when positive else nothing, trades accepted only on open bars.",
+        "note": "Cash/position effects of accepted trades are C15's subject. An on-hour bar whose book has no rows may or may not settle; an "
+        "instrument absent from the settlement-hour book may be charged any fee in [0, cap]. Sampled books and paths.",
+    },
+    "C19": {
+        "technique": "differential monitor: each strategy's managed run (fresh interpreter per manager run, schedule varied and recorded) compared exactly with its solo run",
+        "text": "The real BacktestManager is run over generated worlds (uni, aave, uni+aave, squeeth, GMX v1/v2, deribit; 1 min / 5 min / 1 h bars) "
+        "with 2-6 seeded, state-dependent strategies (idle, LP, aave, all-markets, add_column indicator, a vandal that wrecks its own "
+        "markets/broker after its run, a strategy that raises mid-run), permuted orders, 1/2/3/n workers, in-process and forked pool, "
+        "seed-chosen sleeps; every strategy writes history, actions, final projection and pid from finalize(), and each managed record must "
+        "equal the record of the same strategy run alone. Evidence lists the distinct pid -> strategies assignments (schedules) observed.",
+        "note": "'Alone' = the manager with that single strategy over an identically rebuilt configuration. Schedules are sampled through sleeps, "
+        "not enumerated; the Windows pool branch and threads > cpu_count are not exercised; a manager timeout gives INCONCLUSIVE.",
+    },
+    "C05": {
+        "technique": "offline trace checker over an event log recorded by run-time class-attribute wrappers (strategy hooks, set_market_status/update of every market type, Trigger.when/do, the action-record callback) around the real Actuator.run; independently computed bar index and price table",
+        "text": "Generated strategies (kit operations in initialize, before_bar, trigger actions, on_bar, after_bar and inside notify; triggers added "
+        "at initialize and later) run through the real Actuator over 8 market mixes (uniswap, aave, squeeth+pool, GMX v1/v2 next to the hourly "
+        "Deribit book; the book alone) x intervals 1min/5min/1h/4h (and other spellings/widths) x histories of 1, 2, 7, 60, 61, 1440 minutes, "
+        "starts on/off the grid, holes in the book; scripted portfolios make markets act in update() (aave liquidation, option delivery/expiry, "
+        "squeeth liquidation). Per bar of the independently resampled index the log must show, once and in order: before_bar, triggers, on_bar, "
+        "every market's update exactly once, after_bar, notify; every action record is stamped with its bar, is in Actuator.actions and reaches "
+        "notify exactly once after after_bar of that bar; every accepted state-changing operation left a record; the account history has one "
+        "row per bar with the bar's timestamp and prices.",
+        "note": "Sampled runs. The second status refresh, initialize/finalize counts and row_id are not asserted; accepted calls without any state "
+        "effect and operations without an action type are exempt from the record clause; bin aggregation of market rows is not prescribed "
+        "(membership only). Trusted: pandas datetime arithmetic, object identity of action records.",
+    },
+    "C07": {
+        "technique": "reference-model monitor: Fraction re-implementation of LiquidityAmounts on the integer sqrt ratios compared with the real functions and with wallet deltas of a live market",
+        "text": "Generated (sqrt price, tick range, decimals, offered amounts) incl. prices exactly on / one unit next to a bound, far outside, "
+        "MIN/MAX sqrt ratio, ranges touching MIN/MAX tick, one-spacing ranges, offers 0 / 1 wei / 1e12 tokens are pushed through get_liquidity, "
+        "get_amounts, V3CoreLib.new_position/close_position and add/remove on a live UniLpMarket: used <= offered, liquidity maximal within "
+        "the stated slack, one-sidedness out of range and both sides inside, non-negativity, monotonicity on price ladders, proportionality to "
+        "L, closed form within 1e-30, add-then-remove returns exactly what was used.",
+        "note": "'Used <= offered' allows the statement's 1e-30 relative (prec-35 double rounding next to MAX tick). Through the live market a "
+        "range end is the pool's lowest/highest usable tick (positions sit on multiples of the spacing, as in v3-core). Sampled inputs.",
+    },
+    "C09": {
+        "technique": "differential monitor: the same base/quote script run on a token0-is-quote pool and on its mirror (ticks negated, per-token volumes swapped), every named result compared",
+        "text": "Pools over decimals {6,8,18}^2 and fee tiers, price in / below / above the range, fee accrual over tick paths, buy / sell / swap / "
+        "even_rebalance, add by price, by tick and by value in all its branches, estimate_amount / estimate_liquidity, remove and collect "
+        "(partial, full): return values, wallet balances, position status, market balance and pending fees must agree within 1e-12 relative "
+        "(0.1 % for the estimate-based helpers); a rejection must be mirrored by a rejection.",
+        "note": "Prices and paths within one tick of a range bound are excluded (half-open ranges are not mirror-symmetric on a bound), |tick| <= "
+        "330000; after an estimate-based helper deviates by more than 1e-9 within its 0.1 % the rest of that script is not compared. Sampled.",
+    },
+    "C17": {
+        "technique": "reference-model monitor: integer re-implementation of the GMX v1 Vault / GlpManager fee and mint/redeem rules and a float re-derivation of the v2 deposit/withdraw formulas, plus a same-bar round-trip monitor",
+        "text": "Generated v1 pool states (token weights, USDG amounts below / at / above target and crossing it, zero target, 6/8/18-decimals tokens, "
+        "amounts from 1 wei to 10 % of the pool) and real avalanche rows, v2 pools (balanced .. 10:1, virtual inventories, impact pool 0 .. "
+        "large): fee bps in [0, 85] and within 1 bp of the Vault rule, minted/redeemed amounts per the round-down steps and token decimals, "
+        "reward accrual pro rata, v2 mint/redeem per pool value per share with fee factors and capped impact, over-redemption rejected, and a "
+        "buy-then-redeem round trip in one bar never returns more than was paid.",
+        "note": "1 bp of the gross amount + rounding quanta on v1 amounts; float bounds on v2; within 2 wei of a fee-rule jump either side is "
+        "accepted; v2 deposits the contract would revert are not issued. One protocol-faithful known finding (GM positive price impact > fees).",
+    },
     "C04": {
         "technique": "invariant at quiescent points: deep state projection compared around every raising call, rejection sites taken from tracebacks",
         "text": "Frozen-market scenes of every market type (uniswap, aave, uniswap+aave, squeeth with its pool, deribit incl. closed bars, "
